@@ -1004,3 +1004,52 @@ def rule_fill_length_in_bytes(ctx):
                 ctx.violated("FILLBYTES", key, f.where(line), "NC_arrayfill is handed `%s`, which contains no element size: it is an element count, so only a fraction of the buffer receives the fill value" % r[:50])
     ctx.floor("FILLBYTES", 6, n, "(NC_arrayfill calls)")
     return n
+
+
+def rule_fast_dimension_coadjusted(ctx):
+    """COADJUST (C03): NCgenio walks a strided request element by element: per step it transfers `iocount` elements and then advances the
+    external index by `mystride[d]` and the address in the caller's buffer by `myimap[d]`.  Its one optimisation transfers the
+    whole fastest dimension at once: it sets the transfer count of that dimension to the full count — and must then make one
+    odometer step cover the whole dimension as well, externally (stride) *and* in the caller's buffer (imap).  In the arm that
+    assigns `iocount[d]`, every array the odometer advances by (`x += A[idim]`) is assigned at the same index; a step array left
+    at its per-element value makes each later row land inside the previous one in the caller's buffer."""
+    from .codec import ast_walk
+    from .facts import kind, strip, walk, render, base_var
+    prog = ctx.prog
+    f = prog.func("H4_NCgenio") or prog.func("NCgenio")
+    if f is None or not f.raw.get("ast"):
+        ctx.unrecognised("COADJUST", "COADJUST:NCgenio", "-", "NCgenio not found")
+        return 0
+    steps = set()
+    for _b, _i, _s, x in f.nodes(True):
+        if x[0] == "asg" and x[1] == "+=" and kind(strip(x[3])) == "idx" and kind(strip(strip(x[3])[2])) == "var":
+            steps.add(base_var(x[3]))
+    arms = []
+
+    def vis(nd, st):
+        if nd[0] == "if":
+            arm = nd[2]
+            kids = arm[1] if arm[0] == "block" else [arm]
+            assigned = {}
+            for k in kids:
+                if k[0] == "s":
+                    for x in walk(k[1], True):
+                        if x[0] == "asg" and x[1] == "=" and kind(strip(x[2])) == "idx":
+                            assigned[base_var(x[2])] = render(strip(strip(x[2])[2]))
+            if "iocount" in assigned:
+                arms.append((nd, assigned))
+        return True
+
+    ast_walk(f.raw["ast"], vis)
+    n = 0
+    for nd, assigned in arms:
+        n += 1
+        key = "COADJUST:NCgenio#%d" % n
+        line = nd[-3] if isinstance(nd[-3], int) else f.line
+        missing = sorted(a for a in steps if a not in assigned or assigned[a] != assigned["iocount"])
+        if missing:
+            ctx.violated("COADJUST", key, f.where(line), "the arm that makes one transfer cover the whole dimension `%s` does not adjust the odometer step `%s[%s]`: the walk still advances by one element there" % (assigned["iocount"], missing[0], assigned["iocount"]))
+        else:
+            ctx.holds("COADJUST", key, f.where(line), "transfer count and both odometer steps (%s) of dimension `%s` are adjusted together" % (", ".join(sorted(steps)), assigned["iocount"]), nontrivial=True)
+    ctx.floor("COADJUST", 1, n, "(arms of NCgenio that change the transfer count of a dimension)")
+    return n
